@@ -165,6 +165,7 @@ func (sw *SprayAndWait) SenderForBundle(bp BundleDescriptor) (css []cla.Converge
 		}
 	}
 
+	simHook("spray.select.write", bp.ID())
 	sw.dataMutex.Lock()
 	sw.bundleData[bp.Id] = metadata
 	sw.dataMutex.Unlock()
@@ -205,6 +206,7 @@ func (sw *SprayAndWait) ReportFailure(bp BundleDescriptor, sender cla.Convergenc
 		}
 	}
 
+	simHook("spray.failure.write", bp.ID())
 	sw.dataMutex.Lock()
 	sw.bundleData[bp.Id] = metadata
 	sw.dataMutex.Unlock()
@@ -363,6 +365,7 @@ func (bs *BinarySpray) SenderForBundle(bp BundleDescriptor) (css []cla.Convergen
 		}
 	}
 
+	simHook("bspray.select.write", bp.ID())
 	bs.dataMutex.Lock()
 	bs.bundleData[bp.Id] = metadata
 	bs.dataMutex.Unlock()
@@ -413,6 +416,7 @@ func (bs *BinarySpray) ReportFailure(bp BundleDescriptor, sender cla.Convergence
 		}
 	}
 
+	simHook("bspray.failure.write", bp.ID())
 	bs.dataMutex.Lock()
 	bs.bundleData[bp.Id] = metadata
 	bs.dataMutex.Unlock()
